@@ -200,7 +200,13 @@ def rule_unspendable(ctx):
             here = set(util.guards_at(u, df[1]))
             outs.extend((e, sorted(here | set(util.guards_at(u, bb)))) for e, bb in alts)
         else:
-            outs.append((u.rvalue_expr(df[3]) if df[0] == 'assign' else u.call_expr(df[2]), util.guards_at(u, df[1])))
+            v0 = u.rvalue_expr(df[3]) if df[0] == 'assign' else u.call_expr(df[2])
+            outs.append((v0, util.guards_at(u, df[1])))
+            if canon(v0) == 'false':
+                # one `false` return reached from several arms: the empty-script arm is one of its incoming paths
+                for gs in util.path_guard_sets(u, df[1]):
+                    if 'first(a1) is None' in gs and not any(x.startswith(cls + ' ') for x in gs):
+                        rej_empty = True
     for v, g in outs:
         c = canon(v)
         if c == 'false' and g == ['first(a1) is None']:
